@@ -239,7 +239,9 @@ impl AsyncReader {
     ///
     /// Returns `Some` with an index if a request was submitted. Otherwise, `None`.
     pub fn submit(&mut self, io_handle: &IoHandle, user_data: u64) -> Option<usize> {
-        if self.is_done_requesting() {
+        // Only the first few page numbers come from the cell; the rest become known as the
+        // leading pages are parsed, so the next one to request may not be known yet.
+        if self.is_done_requesting() || self.request_index >= self.pages.len() {
             return None;
         }
 
